@@ -24,7 +24,7 @@ NOT_APPLICABLE = {
     'C31': "frame condition over the entire framework along API-call histories; per-function frames are proved where they live (C12, C33)",
     'C34': "derivatives come from jax AD / generated code; nothing to put under contract",
 }
-for _p in ['C02','C03','C04','C05','C06','C07','C08','C11','C12','C15','C16','C21','C23','C25','C26','C29','C30','C32']:
+for _p in ['C02','C03','C04','C05','C07','C08','C11','C12','C15','C16','C21','C23','C25','C26','C29','C30','C32']:
     NOT_APPLICABLE.setdefault(_p, NA_DEFAULT)
 
 CLAIMED = {
@@ -63,4 +63,9 @@ CLAIMED = {
         design_ref="DESIGN.md section 3 C13",
         note="Trusted: pyvc + NumPy model (argmax with first-index tie rule, .flat), z3, reals for floats. Bounded part: Subjac.set_col family (Python lists of pairs and scipy.sparse internals are outside pyvc's subset). Not covered: directional checks, text rendering in deriv_display, check_totals plumbing.",
         technique="deductive verification (pyvc -> z3) for the comparison kernels; bounded exhaustive native check for the sparsity audit"),
+    'C06': dict(
+        text="Proof (all factors, offsets and 9-component integer dimension vectors) that PhysicalUnit.conversion_tuple_to returns the affine map with (x+offset)*factor == ((x+d1)*s1)/s2 - d2 for every x and raises TypeError exactly when the dimension vectors differ; that is_compatible is equality of dimension vectors; that product, quotient and integer power multiply/divide/raise factors and add/subtract/scale dimension vectors (offset units rejected); and, as lemmas proved only from those contracts: A->B->A is the identity, A->B->C equals A->C, compatibility is an equivalence that exactly decides whether conversion succeeds, and a product converts with the product of its parts' factors. unit_conversion, convert_units and is_compatible (string API) are proved against an assumed parser contract. The parser (_find_unit: regex + eval), simplify_unit and SI prefixes are decided only in a BOUNDED exhaustive tier over the whole shipped library (140 units, all 19 600 pairs, class triples, depth-2 composites) and reported as bounded.",
+        design_ref="DESIGN.md section 3 C06",
+        note="Trusted: pyvc, z3 (QF_NRA), reals for floats; unit name dictionaries are opaque bookkeeping. Assumed: _find_unit returns the unit a string denotes (exercised exhaustively on the library in the bounded tier); the numbers in unit_library.ini. Not covered: fractional powers, has_val_mismatch.",
+        technique="deductive verification (pyvc -> z3) of the unit algebra + lemmas via modular harness; bounded exhaustive native tier for the parser/library"),
 }
